@@ -103,16 +103,18 @@ func (p *VarHeaderPostprocessor) substr(args []string) (func(in string) string, 
 		}
 	}
 	return func(in string) string {
+		// Modifier is shared by all instances and shoots, so don't change captured start and end.
 		l := len(in)
+		start, end := start, end
 		if start < 0 {
 			start = l + start
 		}
 		if end <= 0 {
 			end = l + end
 		}
-		if end > l {
-			end = l
-		}
+		// Header value can be shorter than expected.
+		start = min(max(start, 0), l)
+		end = min(max(end, 0), l)
 		if start > end {
 			start, end = end, start
 		}
